@@ -241,6 +241,10 @@ Loop:
 			break Loop
 
 		case "F>": // Prompt (end of proposal block)
+			if len(line) < 3 {
+				return false, fmt.Errorf("Got malformed prompt line: '%s'", line)
+			}
+
 			// Verify checksum
 			ourChecksum = (-ourChecksum) & 0xff
 			their, _ := strconv.ParseInt(line[3:], 16, 64)
